@@ -36,6 +36,7 @@ type c11wrap struct {
 	written  [][]byte           // every byte string ever written
 	names    []string
 	failRm   int // fail the next n RemoveBlobs calls
+	failPut  int // fail the next n ReceiveBlob calls (nothing is stored)
 	activity int
 }
 
@@ -56,6 +57,10 @@ func (w *c11wrap) ReceiveBlob(ctx context.Context, br blob.Ref, r io.Reader) (bl
 	w.mu.Lock()
 	defer w.mu.Unlock()
 	w.activity++
+	if w.failPut > 0 {
+		w.failPut--
+		return blob.SizedRef{}, fmt.Errorf("verif: injected ReceiveBlob failure")
+	}
 	have := false
 	for _, o := range w.order {
 		if o == br {
@@ -404,7 +409,7 @@ func newC11env(c *ctx, dir string, nplains int, tag string, rawStores bool) *c11
 }
 
 func runC11(c *ctx) {
-	c.rep.Rule = "encrypt stores created by CreateStorage(\"encrypt\") over instrumented wrapped stores (memory.Storage, or a raw map store that accepts tampered bytes); histories of 150-450 receives (fresh, duplicate, the empty blob, 70 KB blobs) crossing the compaction threshold several times, injected failures of the small-meta removal, restarts with a fresh meta index at random points; " +
+	c.rep.Rule = "encrypt stores created by CreateStorage(\"encrypt\") over instrumented wrapped stores (memory.Storage, or a raw map store that accepts tampered bytes); histories of 150-450 receives (fresh, duplicate, the empty blob, 70 KB blobs) crossing the compaction threshold several times, injected failures of the small-meta removal and of single writes to either wrapped store (the receive fails, the client retries), restarts with a fresh meta index at random points; " +
 		"at checkpoints the wrapped stores are decrypted by the harness (its own age identity) and compared with the model, with the enumerated plaintext refs and the class of Fetch's answer; then tampering: for every data ciphertext (quick: a sample of positions; thorough: every byte) bit flips, truncations, extensions, swaps with another ciphertext -> Fetch exact-or-error; " +
 		"for meta blobs the same mutations followed by a restart -> start-up fails or everything is exact; all bytes and names ever written below are scanned for plaintext substrings and plaintext refs; non-trivial = distinct checkpoint after a compaction or a tampering"
 	dir, err := os.MkdirTemp("", "verif-c11-")
@@ -455,6 +460,31 @@ func c11Scenario(c *ctx, dir string, si int) {
 				e.meta.mu.Lock()
 				e.meta.failRm = 1
 				e.meta.mu.Unlock()
+			}
+			// a transient failure of one of the wrapped stores: the receive fails, the client retries
+			if !isRecv[id] && c.rng.Intn(25) == 0 {
+				atMeta := c.rng.Intn(2) == 0
+				st := e.blobs
+				if atMeta {
+					st = e.meta
+				}
+				st.mu.Lock()
+				st.failPut = 1
+				st.mu.Unlock()
+				err := e.receive(id)
+				st.mu.Lock()
+				left := st.failPut
+				st.failPut = 0
+				st.mu.Unlock()
+				c.rep.SpecChecks++
+				if err == nil && left == 0 {
+					c.violation(len(c.casesBuf), "c11-failed-write-acknowledged", fmt.Sprintf("receive #%d was acknowledged although the write below failed", id), e.human)
+				}
+				if left == 0 {
+					e.ops = append(e.ops, fmt.Sprintf("HReceiveFail %s %d", qb(atMeta), id))
+					e.human = append(e.human, fmt.Sprintf("receive #%d fails (wrapped %s store refuses the write)", id, st.name))
+					c.count("steps", "failed receive "+st.name)
+				}
 			}
 			if err := e.receive(id); err != nil {
 				c.violation(-1, "c11-receive-failed", fmt.Sprintf("receive #%d: %v", id, err), nil)
